@@ -61,7 +61,8 @@ pub fn tuple_destructure(tpl_dstrct: &TupleDestructure, p: &Interpreter) -> MRes
   // Check every name and the arity first, so that a failing destructure defines nothing.
   for (i, var) in tpl_dstrct.vars.iter().enumerate() {
     let id = var.hash();
-    if symbols_brrw.contains(id) {
+    // A name that is already defined, or that appears twice in this destructure, cannot be defined (again).
+    if symbols_brrw.contains(id) || tpl_dstrct.vars[..i].iter().any(|earlier| earlier.hash() == id) {
       return Err(MechError::new(
         VariableAlreadyDefinedError { id },
         None
